@@ -128,7 +128,7 @@ package crypto
 //@   at call EnvelopeCallbackHandler.OnCryptoEnvelope : assert arg[0] == ctx && sameslice(arg[1], container)
 
 //@ func (recognizer *EnvelopeDetector) OnColumn(ctx context.Context, inBuffer []byte) (outCtx context.Context, out []byte, err error)
-//@   props C01 C03 C14 C15
+//@   props C01 C03 C11 C14 C15
 //@   safety
 //@   loop 0 invariant 0 <= inIndex && inIndex <= len(inBuffer)
 //@          decreases len(inBuffer) - inIndex
